@@ -1819,4 +1819,32 @@ theorem peer_never_faults (P : HsP) (u : Bool) (dc ds : Bytes) (g : Glue) (h : H
     (hinv : SysInv P dc ds (mkSys u g h w)) : w.faults = 0 :=
   C18Hs.peer_never_faults P u dc ds g h w hinv
 
+/-! ### an asynchronous (driver-operated) server and a polling synchronous client -/
+
+theorem deemed_flags_are_harmless {σ : Type} (C : Cfg) (r : Bool) (E : Engine σ) (s : St σ Chan) (hfl : Fl r s) :
+    (∀ n, tlsRead C (chanWorld r) E (nf s) n = ((tlsRead C (chanWorld r) E s n).1, nf (tlsRead C (chanWorld r) E s n).2)) ∧
+    (∀ d, tlsWrite C (chanWorld r) E (nf s) d = ((tlsWrite C (chanWorld r) E s d).1, nf (tlsWrite C (chanWorld r) E s d).2)) :=
+  C18Hs.deemed_flags_are_harmless C r E s hfl
+
+theorem readable_task_progress (C : Cfg) (hC : 0 < C.stepsMax) (P : HsP) (r : Bool) (data : Bytes) (rx : Nat)
+    (hrx : 1 ≤ rx) (s : St Hs Chan) (hi : SideInv P r data (nf s)) (hin : 0 < s.w.inb r) :
+    ∃ bs s', receiveReadable C (chanWorld r) (engine P) s rx = (.ok bs, s') ∧ SideInv P r data (nf s') ∧
+      Tr P r s.e s.w s'.e s'.w ∧ (CanProg r s.e s.w → work P s'.e < work P s.e) ∧ Tight (nf s') ∧
+      (3 ≤ s'.e.stage → s'.g.lastError = .none) :=
+  C18Hs.readable_task_progress C hC P r data rx hrx s hi hin
+
+theorem handshake_completes_async_server (C : Cfg) (hC : 1 < C.stepsMax) (P : HsP) (dc ds : Bytes) (hdc : dc ≠ [])
+    (rx : Nat) (hrx : 1 ≤ rx) (segs : List Nat) (w : Nat) (l : List ActA) (hok : ∀ a ∈ l, a.okA)
+    (hf : C18Hs.AFair w l) (j : Nat) (hj : j ≤ l.length) :
+    (SysAS.run C P dc rx (l.take j) (SysAS.init P segs)).faults = 0 ∧
+    (SysAS.run C P dc rx (l.take j) (SysAS.init P segs)).x.a.pollOut = false ∧
+    (P.total * w ≤ j → (SysAS.run C P dc rx (l.take j) (SysAS.init P segs)).bothFinished) :=
+  C18Hs.handshake_completes_async_server C hC P dc ds hdc rx hrx segs w l hok hf j hj
+
+theorem undriven_server_never_completes (C : Cfg) (P : HsP) (dc : Bytes) (rx : Nat) (segs : List Nat) (l : List ActA)
+    (hl : ∀ a ∈ l, a ≠ ActA.drive) :
+    (SysAS.run C P dc rx l (SysAS.init P segs)).x.s.e = Hs.init P false ∧
+    ¬ (SysAS.run C P dc rx l (SysAS.init P segs)).bothFinished :=
+  C18Hs.undriven_server_never_completes C P dc rx segs l hl
+
 end SockModel.Hs
